@@ -20,7 +20,7 @@ RULE = (
 )
 ASSUMPTIONS = ["reference model vf/ref.py (explicit overridden transition graph, n <= 7)"]
 DEADLINE = 300
-PREFIX_KINDS = ["bfs", "dfs", "min", "min_skip", "attr", "target", "block", "scc", "skip", "skiprem", "succ"]
+PREFIX_KINDS = ["bfs", "dfs", "min", "min_skip", "attr", "target", "target", "control", "control", "block", "scc", "skip", "skiprem", "succ"]
 
 
 def cases(tier, seed):
